@@ -659,6 +659,8 @@ class BuiltinMixin:
         """d[k] = v : value updated; key appended to the order when new."""
         dom = z3.Store(m.dom, *k.comps(), z3.BoolVal(True))
         vals = [z3.Store(a, *k.comps(), c) for a, c in zip(m.vals, v.comps())]
+        if not m.ty.ordered:
+            return VMap(dom, vals, None, m.ty)
         ks = m.keys
         had = m.has(k)
         nk = VSeq(z3.If(had, ks.len, ks.len + 1),
